@@ -210,9 +210,16 @@ func run(r *report.Run, shard, nshards int, replayFile string) {
 
 	qr, err := w.App.ConsensusKeeper.GetAllQueueNames(ctx, &ctypes.QueryGetAllQueueNamesRequest{})
 	must(err)
-	_ = qr
-	e.queues = []string{world.TurnstoneQueue(ref)}
 	e.tq = world.TurnstoneQueue(ref)
+	// Only the turnstone queue is observed: the chain's other queues are empty and
+	// nothing in the alphabet enqueues into them (they are fed at heights that are
+	// multiples of 300 / by balance and reference-block schedulers).
+	e.queues = []string{e.tq}
+	for _, q := range qr.Queues {
+		if msgs, err := w.App.ConsensusKeeper.GetMessagesFromQueue(ctx, q, 0); q != e.tq && err == nil && len(msgs) > 0 {
+			panic("unexpected messages in " + q)
+		}
+	}
 
 	g0 := &ghost{Reg: append([]string{}, e.orig...), Lit: append([]string{}, e.orig...), Sig: map[string]map[string]string{}, Prev: map[string]string{}}
 	g0.obs = e.observe(ctx)
@@ -244,6 +251,7 @@ func run(r *report.Run, shard, nshards int, replayFile string) {
 		"registered Pubkey is the 20-byte address of the registered key (what StdChain and pigeon register) or, in the alias registration, the same address zero-padded to 32 bytes; the stored PublicKey of a signature is read the way the queue reads it (last 20 bytes)",
 		"signature byte V is accepted as 0/1 or 27/28 for batch confirms (representation, as skyway's EthAddressFromSignature)",
 		"quick tier: invalid signature kinds and alias registrations are enumerated for validator v0 only and one gas value; thorough: all validators, two gas values",
+		"only the turnstone queue of the chain is observed; its validators-balances, collect-fund-events and reference-block queues are empty at set-up and no operation of the alphabet feeds them",
 		"per-item scenarios assume that operations on one queued item do not influence how another item's signatures are handled; the all-items scenario checks the combination to a smaller depth",
 		"each scenario has a slice of the time budget and at most 80000 states per worker; what was cut is listed in caps_hit and depth_completed",
 	}
